@@ -1,26 +1,34 @@
-"""C20 — colours reduced for 256-colour and grey terminals are the closest available (table / shape clauses).
+"""C20 — colours reduced for 256-colour and grey terminals are the closest available (table / value clauses).
 
-Everything is read from src.json trees of src/encoder.rs (`CUBE`, `GREYS`, `nearest`, `color_sgr_encode`) and
-src/decoder.rs (`CUBE`, `GREYS`, `sgr_color`); reference data comes from sa/refs/xterm256.json.  `nearest`'s match arms are
-given their value on concrete (table, index, v) triples by sa.consteval (denotation of the source expression, the
-repository is never run).
+Decided on the *value* the source denotes, not on its shape: `color_sgr_encode`, `nearest` and `sgr_color` are given their
+denotation by sa.consteval.StdInterp (the repository is never run) with the dependency items modelled at the boundary
+(`LinColor::from/new/into/distance`, `to_rgb`, `luma`).  The EightBit arm is evaluated for EVERY combination of the four
+table indices `nearest` can return and for both outcomes of the distance comparison (the indices and the distances are
+supplied by the harness, so the enumeration is exhaustive over the abstract state, independent of any colour sample); the
+arguments the arm hands to `nearest`, `LinColor::new` and `distance` are compared by value with what the clause demands.
+`nearest` itself is evaluated for every table and insertion point.  Helper extraction, renamed locals, named constants,
+hoisted table reads, Horner forms, flipped comparisons, `if`/`match`/early-return forms, `debug_assert!`s and capacity
+hints therefore do not change the verdict; reference data comes from sa/refs/xterm256.json.
 """
 import json
 import os
 
-from ..src import find_all, expr_text, pat_text, lit_int
-from ..consteval import Interp, Frame, Unsupported, emissions, subst, strip_try, pat_names
+from ..src import expr_text, pat_text
+from ..consteval import (StdInterp, Frame, Unsupported, Panic, PreconditionViolated, StructV, EnumV, NONE, some,
+                         emissions, subst, strip_try, pat_names)
 
 ENC = "src/encoder.rs"
 DEC = "src/decoder.rs"
 FN = "encoder::color_sgr_encode"
 REFS = os.path.join(os.path.dirname(os.path.dirname(os.path.abspath(__file__))), "refs", "xterm256.json")
+ROLES = ("Foreground", "Background", "Underline")
 
 CLAIM = {
     "text": "Decides, from the source trees of the current tree: the encoder's f32 CUBE/GREYS tables equal the sRGB->linear transform of the "
             "xterm cube levels {0,95,135,175,215,255} and grey levels 8+10i to the printed 6 digits, are strictly increasing, and the decoder's "
             "integer tables are those levels; the emitted index is 16+36r+6g+b / 232+i with r,g,b,i the `nearest` indices of the matching "
-            "channels / channel mean and stays inside 16..231 / 232..255; `nearest` returns, for every table and every insertion point, the "
+            "channels / channel mean and stays inside 16..231 / 232..255 (the EightBit arm evaluated for all 6x6x6x24 index combinations and both "
+            "outcomes of the comparison); `nearest` returns, for every table and every insertion point, the "
             "index of the closest entry (both edges, interior compares both neighbours; ties to the upper one); the cube/grey choice compares "
             "color.distance(grey candidate) with color.distance(cube candidate) built from the same indices; grey depth uses four increasing "
             "thresholds mapped to 30,90,37,97 (increasing reference luminance), +10 for background, nothing for underline colour; true-colour "
@@ -28,7 +36,8 @@ CLAIM = {
             "grey to the channel mean = Euclidean nearest grey, this yields the minimal-distance palette entry for opaque colours away from "
             "f32 midpoints. NOT decided: optimality at f32 rounding near midpoints, translucent colours (LinColor::from premultiplies alpha "
             "while distance() un-multiplies; dependency code is outside the facts), the luma formula itself.",
-    "technique": "constant-table comparison against xterm/sRGB reference, expression-shape and linear-form rules, exhaustive denotation of `nearest` over all tables and insertion points",
+    "technique": "constant-table comparison against xterm/sRGB reference; exhaustive denotational evaluation (sa.consteval) of the colour-depth arms over all "
+                 "index combinations / comparison outcomes with the dependency calls checked by value at the boundary, and of `nearest` over all tables and insertion points",
     "design_ref": "DESIGN.md §5 C20",
 }
 
@@ -69,36 +78,6 @@ def decimals(lit):
     return len(v.split(".")[1]) if "." in v and "e" not in v.lower() else 0
 
 
-def linform(e):
-    """linear form {var: coef, 1: const} of an integer expression built from + * literals and local names; None otherwise"""
-    e = unref(e)
-    k = e.get("k")
-    if k == "lit" and e["t"] == "int":
-        return {1: int(e["v"])}
-    if k == "path" and "::" not in e["p"]:
-        return {e["p"]: 1}
-    if k == "cast":
-        return linform(e["e"])
-    if k == "bin" and e["op"] in ("+", "-"):
-        a, b = linform(e["l"]), linform(e["r"])
-        if a is None or b is None:
-            return None
-        out = dict(a)
-        for kk, v in b.items():
-            out[kk] = out.get(kk, 0) + (v if e["op"] == "+" else -v)
-        return out
-    if k == "bin" and e["op"] == "*":
-        a, b = linform(e["l"]), linform(e["r"])
-        if a is None or b is None:
-            return None
-        if set(a) == {1}:
-            return {kk: v * a[1] for kk, v in b.items()}
-        if set(b) == {1}:
-            return {kk: v * b[1] for kk, v in a.items()}
-        return None
-    return None
-
-
 def block_value(b):
     """trailing expression of a block (or the expression itself)"""
     if b is None:
@@ -111,124 +90,227 @@ def block_value(b):
     return b
 
 
-class Lets:
-    """sequential let-bindings of one block with shadowing resolved: every reference is rendered as name#version"""
-
-    def __init__(self, params):
-        self.ver = {p: 0 for p in params}
-        self.defs = {}      # "name#v" -> (init expr with resolved names, position in pattern or None, pattern)
-
-    def r(self, e):
-        env = {n: {"k": "path", "p": "%s#%d" % (n, v), "line": 0} for n, v in self.ver.items()}
-        return subst(e, env)
-
-    def text(self, e):
-        return expr_text(self.r(e))
-
-    def bind(self, pat, init):
-        ri = self.r(init) if init is not None else None
-        names = []
-        if pat["k"] == "ident":
-            names = [(pat["name"], None)]
-        elif pat["k"] in ("slice", "tuple"):
-            names = [(x["name"], i) for i, x in enumerate(pat["elems"]) if x["k"] == "ident"]
-        else:
-            names = [(n, None) for n in pat_names(pat)]
-        for n, pos in names:
-            self.ver[n] = self.ver.get(n, -1) + 1
-            self.defs["%s#%d" % (n, self.ver[n])] = (ri, pos, pat)
-
-    def cur(self, name):
-        return "%s#%d" % (name, self.ver[name]) if name in self.ver else None
-
-    def def_of(self, e):
-        """(init, pos, pat) of the versioned name a resolved path expression refers to"""
-        e = unref(e)
-        if e.get("k") == "path":
-            return self.defs.get(e["p"])
-        return None
+def _near(a, b, tol=1e-9):
+    return isinstance(a, (int, float)) and isinstance(b, (int, float)) and not isinstance(a, bool) and abs(a - b) <= tol * max(1.0, abs(a), abs(b))
 
 
-def role_prefix_table(match_item):
-    """("match", scrutinee, arms) over SGRColorType -> {role: bytes}"""
-    out = {}
-    for pat, items in match_item[2]:
-        role = pat_text(pat).split("::")[-1]
-        if len(items) == 1 and items[0][0] == "push" and items[0][1] is not None:
-            out[role] = items[0][1]
-        else:
-            out[role] = None
-    return out
+# ----------------------------------------------------------------------------------------- boundary values
+class LinV:
+    """value of rasterize's LinColor at the boundary: four f32 components (linear r, g, b, alpha)"""
+    __slots__ = ("c",)
+
+    def __init__(self, c):
+        self.c = tuple(float(x) for x in c)
+
+    def __eq__(self, o):
+        return isinstance(o, LinV) and o.c == self.c
+
+    def __ne__(self, o):
+        return not self.__eq__(o)
+
+    def __hash__(self):
+        return hash(self.c)
+
+    def __repr__(self):
+        return "LinColor(%s)" % ", ".join("%g" % x for x in self.c)
 
 
-def depth_arms(src):
-    r = src.fn("color_sgr_encode", file=ENC)
-    if r is None:
-        return None, None, None
-    f, item = r
-    params = [i["pat"]["name"] for i in item["sig"]["inputs"] if i.get("pat")]
-    ms = [s["e"] for s in item["body"]["stmts"] if s["k"] == "expr" and strip_try(s["e"]).get("k") == "match"]
-    arms = {}
-    for m in ms:
-        for arm in m["arms"]:
-            pt = pat_text(arm["pat"])
-            if pt.startswith("ColorDepth::"):
-                arms[pt.split("::")[-1]] = arm["body"]
-    return item, params, arms
+class ColorV:
+    """the generic colour argument `C: Color`: what its trait methods return is chosen by the harness"""
+    __slots__ = ("rgb", "lin", "luma")
+
+    def __init__(self, rgb=(0, 0, 0), lin=None, luma=0.0):
+        self.rgb = tuple(rgb)
+        self.lin = lin if lin is not None else LinV((0.0, 0.0, 0.0, 1.0))
+        self.luma = luma
+
+    def __repr__(self):
+        return "Color(rgb=%s, lin=%r, luma=%g)" % (self.rgb, self.lin, self.luma)
 
 
-def truecolor_template(src):
-    """Shape of the true-colour arm of color_sgr_encode, shared with C06.
-    -> dict(prefix={role: bytes}, selector=bytes, holes=[channel position in to_rgb() or None ...], fmts=[..], marks=bool,
-            source=expr text of the destructured value, order_ok=bool, problems=[...], line=int)   or None if not found"""
-    item, params, arms = depth_arms(src)
-    if not arms or "TrueColor" not in arms:
-        return None
-    body = arms["TrueColor"]
-    items = emissions(body)
-    lets = Lets(params)
-    t = {"prefix": {}, "selector": None, "holes": [], "fmts": [], "marks": True, "source": None, "problems": [], "line": body.get("line", 0),
-         "seq": []}
-    i = 0
-    while i < len(items):
-        it = items[i]
-        kind = it[0]
-        if kind == "let":
-            lets.bind(it[1], it[2])
-        elif kind == "match" and expr_text(it[1]) == "sgr_color_type":
-            t["prefix"] = role_prefix_table(it)
-            t["seq"].append("prefix")
-        elif kind == "push":
-            t["seq"].append("lit")
-            if t["selector"] is None:
-                t["selector"] = it[1]
+class Abort(Exception):
+    """the evaluated code handed something to a boundary call that the clause does not allow (shape, message)"""
+
+    def __init__(self, rule, shape, msg):
+        Exception.__init__(self, msg)
+        self.rule = rule
+        self.shape = shape
+        self.msg = msg
+
+
+class Harness:
+    """color_sgr_encode under sa.consteval with the dependency boundary modelled; `on_nearest` / `on_distance` let a rule supply
+    the results of those calls (None = evaluate the repository's `nearest` / the Euclidean distance in linear RGB)"""
+
+    def __init__(self, src):
+        self.src = src
+        self.it = StdInterp(src)
+        self.problem = None
+        self.fn = src.fn("color_sgr_encode", file=ENC)
+        if self.fn is None:
+            c = [(f, item) for (f, s, tr, item, t) in src.fns if not t and f == ENC and s is None
+                 and {"ColorDepth", "SGRColorType"} <= {i["ty"].replace(" ", "") for i in item["sig"]["inputs"]}]
+            self.fn = c[0] if len(c) == 1 else None
+        self.nearest = src.fn("nearest", file=ENC)
+        if self.nearest is None:
+            c = [(f, item) for (f, s, tr, item, t) in src.fns if not t and f == ENC and s is None
+                 and [i["ty"].replace(" ", "") for i in item["sig"]["inputs"]] == ["f32", "&[f32]"] and (item["sig"].get("output") or "").replace(" ", "") == "usize"]
+            self.nearest = c[0] if len(c) == 1 else None
+        self.on_nearest = None
+        self.on_distance = None
+        self.log = []
+        it = self.it
+        it.extern_fns["LinColor::from"] = self._lin_from
+        it.extern_fns["LinColor::new"] = self._lin_new
+        it.extern_methods["to_rgb"] = lambda recv, a: list(recv.rgb) if isinstance(recv, ColorV) and not a else _unsup("to_rgb on %r" % (recv,))
+        it.extern_methods["luma"] = self._luma
+        it.extern_methods["distance"] = self._distance
+        it.extern_methods["into"] = self._into
+        if self.nearest is not None:
+            it.extern_fns[self.nearest[1]["name"]] = self._nearest
+
+    # ---- boundary models
+    def _lin_from(self, a):
+        if len(a) == 1 and isinstance(a[0], ColorV):
+            self.log.append(("lin-from", a[0]))
+            return a[0].lin
+        if len(a) == 1 and isinstance(a[0], LinV):
+            return a[0]
+        raise Unsupported("LinColor::from of %r" % (a,))
+
+    def _lin_new(self, a):
+        if len(a) == 4 and all(isinstance(x, (int, float)) and not isinstance(x, bool) for x in a):
+            return LinV(a)
+        raise Unsupported("LinColor::new of %r" % (a,))
+
+    def _luma(self, recv, a):
+        if isinstance(recv, ColorV) and not a:
+            self.log.append(("luma", recv))
+            return recv.luma
+        raise Unsupported("luma on %r" % (recv,))
+
+    def _into(self, recv, a):
+        if isinstance(recv, LinV) and not a:
+            return list(recv.c)
+        if isinstance(recv, ColorV) and not a:
+            self.log.append(("lin-from", recv))
+            return recv.lin
+        raise Unsupported("into() on %s" % type(recv).__name__)
+
+    def _distance(self, recv, a):
+        if not (isinstance(recv, LinV) and len(a) == 1 and isinstance(a[0], LinV)):
+            raise Unsupported("distance on %r" % (recv,))
+        self.log.append(("distance", recv, a[0]))
+        if self.on_distance is not None:
+            return self.on_distance(recv, a[0])
+        return sum((x - y) ** 2 for x, y in zip(recv.c[:3], a[0].c[:3])) ** 0.5
+
+    def _nearest(self, a):
+        if len(a) != 2 or isinstance(a[0], bool) or not isinstance(a[0], (int, float)) or not isinstance(a[1], list):
+            raise Unsupported("nearest(%r)" % (a,))
+        v, table = float(a[0]), [float(x) for x in a[1]]
+        self.log.append(("nearest", v, table))
+        if self.on_nearest is not None:
+            return self.on_nearest(v, table)
+        return self.call_nearest(v, table)
+
+    def call_nearest(self, v, table):
+        return self.it.call_item(self.nearest[1], None, [v, list(table)], self.nearest[0])
+
+    def new_chunks(self):
+        try:
+            return self.it.default_of("Chunks")
+        except Unsupported:
+            st = self.src.struct("Chunks", file=ENC)
+            if st is None:
+                raise
+            return StructV("Chunks", {f["name"]: self.it.default_of(f["ty"]) for f in st[1]["fields"]})
+
+    # ---- one evaluation
+    def run(self, depth, role, color):
+        """-> (return value, [chunk bytes], unmarked tail bytes); raises Unsupported / Abort"""
+        it = self.it
+        it._memo.clear()          # the boundary models are stateful (they log and answer per run): no results carried over between runs
+        self.log = []
+        chunks = None
+        args = []
+        left = []
+        for inp in self.fn[1]["sig"]["inputs"]:
+            ty = inp["ty"].replace(" ", "")
+            if ty.endswith("Chunks"):
+                chunks = self.new_chunks()
+                args.append(chunks)
+            elif ty == "ColorDepth":
+                args.append(EnumV("ColorDepth", depth))
+            elif ty == "SGRColorType":
+                args.append(EnumV("SGRColorType", role))
             else:
-                t["problems"].append("extra literal chunk")
-        elif kind == "write":
-            t["seq"].append("hole")
-            t["fmts"].append(it[1])
-            pos = None
-            src_txt = None
-            if len(it[2]) == 1:
-                d = lets.def_of(lets.r(it[2][0]))
-                if d is not None and d[1] is not None and d[2]["k"] == "slice" and len(d[2]["elems"]) == 3:
-                    pos = d[1]
-                    src_txt = expr_text(d[0])
-            t["holes"].append(pos)
-            if src_txt is not None:
-                if t["source"] is None:
-                    t["source"] = src_txt
-                elif t["source"] != src_txt:
-                    t["problems"].append("holes come from different values")
-            if not (i + 1 < len(items) and items[i + 1][0] == "mark"):
-                t["marks"] = False
-        elif kind == "mark":
-            pass
+                left.append(len(args))
+                args.append(color)
+        if chunks is None or len(left) != 1:
+            raise Unsupported("parameters of color_sgr_encode are not (chunks, colour, depth, role)")
+        ret = it.call_item(self.fn[1], None, args, self.fn[0], memo=False)
+        buf, off = chunks.fields.get("buffer"), chunks.fields.get("offsets")
+        if not (isinstance(buf, list) and isinstance(off, list) and all(isinstance(x, int) for x in buf + off)
+                and all(0 <= x <= len(buf) for x in off) and off == sorted(off)):
+            raise Unsupported("Chunks is not {buffer: bytes, offsets: chunk ends}")
+        out, start = [], 0
+        for end in off:
+            out.append(bytes(buf[start:end]))
+            start = end
+        return ret, out, bytes(buf[start:])
+
+
+def _unsup(msg):
+    raise Unsupported(msg)
+
+
+def _show(chunks, tail=b""):
+    return ";".join(c.decode("latin-1") for c in chunks) + (("+unmarked:" + tail.decode("latin-1")) if tail else "")
+
+
+# ----------------------------------------------------------------------------------------- shared with C06
+def truecolor_template(src):
+    """What the true-colour arm of color_sgr_encode writes, read off its evaluation (shared with C06).
+    -> dict(prefix={role: bytes}, selector=bytes, holes=[channel position in to_rgb() or None ...], fmts=[..], marks=bool,
+            source=text, order_ok=bool, problems=[...], line=int, seq=[..], color_param=name)   or None if not evaluable"""
+    h = Harness(src)
+    if h.fn is None:
+        return None
+    item = h.fn[1]
+    params = [i["name"] for i in item["sig"]["inputs"]]
+    cpar = [i["name"] for i in item["sig"]["inputs"] if i["ty"].replace(" ", "") not in ("ColorDepth", "SGRColorType") and not i["ty"].replace(" ", "").endswith("Chunks")]
+    t = {"prefix": {}, "selector": None, "holes": [], "fmts": [], "marks": True, "source": None, "problems": [], "line": item.get("line", 0), "seq": [],
+         "order_ok": False, "color_param": cpar[0] if len(cpar) == 1 else (params[1] if len(params) > 1 else None)}
+    probe = (171, 205, 239)         # decimal and hexadecimal renderings of the three channels are pairwise different
+    shapes = {}
+    for role in ROLES:
+        try:
+            ret, chunks, tail = h.run("TrueColor", role, ColorV(rgb=probe))
+        except (Unsupported, Abort, KeyError, TypeError, IndexError, AttributeError):
+            return None
+        if ret != ("Ok", ()):
+            t["problems"].append("%s: returns %r" % (role, ret))
+        if tail:
+            t["marks"] = False
+        t["prefix"][role] = chunks[0] if chunks else None
+        shapes[role] = chunks[1:]
+    rest = shapes["Foreground"]
+    if any(shapes[r] != rest for r in ROLES):
+        t["problems"].append("the part after the prefix depends on the role")
+    if rest:
+        t["selector"] = rest[0]
+    t["seq"] = ["prefix"] + (["lit"] if rest else []) + ["hole"] * max(0, len(rest) - 1)
+    dec = {str(v).encode(): i for i, v in enumerate(probe)}
+    for c in rest[1:]:
+        if c in dec:
+            t["holes"].append(dec[c])
+            t["fmts"].append("{}")
         else:
-            t["problems"].append("unexpected statement: %s" % kind)
-        i += 1
+            t["holes"].append(None)
+            t["fmts"].append("?")
+    t["source"] = "%s#0.to_rgb()" % t["color_param"]
     t["order_ok"] = t["seq"] == ["prefix", "lit", "hole", "hole", "hole"]
-    t["color_param"] = params[1] if len(params) > 1 else None
     return t
 
 
@@ -237,60 +319,132 @@ def run(ctx):
     src = ctx.src
     ref = json.load(open(REFS))
     lay = ref["layout"]
+    sp = ref["sgr_colour_params"]
+    roles = sp["role_prefix"]
     ctx.explanation = (
-        "Decides table/shape clauses of C20 from src.json: (a) encoder f32 CUBE/GREYS = sRGB->linear of the xterm levels to the printed "
-        "digits, strictly increasing, decoder integer tables = the xterm levels; (b) index arithmetic 16+36r+6g+b and 232+i with the "
-        "variables bound to nearest(channel, CUBE) in channel order / nearest(mean, GREYS), ranges inside 16..231 and 232..255, decoder "
-        "inverse layout; (c) `nearest`: comparator direction, Ok arm, and the Err arm evaluated for every table and insertion point against "
-        "argmin |v - vs[i]|; tie direction recorded; (d) cube/grey choice compares color.distance of both candidates built from the same "
-        "indices and picks the layout of the smaller; (e) grey depth thresholds/codes/+10/underline; (f) true-colour holes. NOT decided: "
+        "Decides table/value clauses of C20 from src.json by denotational evaluation: (a) encoder f32 CUBE/GREYS = sRGB->linear of the xterm levels to the printed "
+        "digits, strictly increasing, decoder integer tables = the xterm levels; (b) the EightBit arm evaluated for all 6x6x6x24 combinations of the nearest() "
+        "indices x both outcomes of the distance comparison: index arithmetic 16+36r+6g+b and 232+i, the nearest() probes are the channels r, g, b on the cube "
+        "table and their mean on the grey table, ranges inside 16..231 and 232..255, <38|48|58>;5;index template; decoder sgr_color evaluated for all 256 "
+        "indices; (c) `nearest` evaluated for every table and insertion point against argmin |v - vs[i]| (comparator consistency = precondition of the binary "
+        "search); tie direction recorded; (d) cube/grey choice: both distances are measured from the requested colour to candidates that are LinColor::new of "
+        "the table entries at the chosen indices, the smaller one selects the layout; (e) grey depth thresholds/codes/+10/underline; (f) true-colour holes. NOT decided: "
         "f32 rounding at midpoints, translucent colours (premultiplied channels vs un-multiplied distance), dependency code (luma, distance).")
     ctx.assume("face colours reaching the encoder are opaque (alpha = 255): rasterize's LinColor::from premultiplies alpha while LinColor::distance un-multiplies; that code is outside the extracted facts")
     ctx.assume("rasterize::srgb_to_linear is the IEC 61966-2-1 transfer function (read once in rasterize-0.6.9/src/color.rs; not part of /repo)")
+    ctx.trust("boundary models", "LinColor::from/new/into/distance, Color::to_rgb/luma are dependency items: the evaluation supplies their results and checks their arguments by value")
+    ctx.trust("Chunks", "the chunk list is read from Chunks{buffer, offsets} after evaluating the repository's push/mark/Write impl (C05/C06 decide what drain writes)")
     ctx.extra["argument"] = ("the cube is a product of one sorted table per channel, so per-channel nearest minimises each squared term of the "
                              "Euclidean distance independently; for a grey (t,t,t) the squared distance is 3(t-mean)^2 + const, so nearest to the "
                              "channel mean minimises it; rule GREY-VS-CUBE then takes the smaller of the two minima")
     all_finite = True
+    h = Harness(src)
+    it = h.it
 
-    # ---------------- (a) tables -----------------------------------------------------------------------------
     ctx.rule("TABLE-LINEAR", "encoder f32 CUBE/GREYS = sRGB->linear(xterm level) to printed digits (<= 6), lengths 6/24, strictly increasing", floor=32)
     ctx.rule("TABLE-DECODER", "decoder u8 CUBE/GREYS = xterm cube levels / grey ramp, entry by entry", floor=30)
+    ctx.rule("NEAREST", "`nearest`: comparator orders the table (binary search precondition), exact hit => its index, otherwise argmin |v - vs[j]| for every table and insertion point", floor=38)
+    ctx.rule("INDEX-LAYOUT", "EightBit: index = 16+36r+6g+b / 232+i over nearest() indices taken from the matching channels / the channel mean, in range, <38|48|58>;5;index, minimal distance on a colour sample; decoder inverse layout", floor=10)
+    ctx.rule("GREY-VS-CUBE", "EightBit: the choice compares color.distance(grey candidate) with color.distance(cube candidate) built from the same indices", floor=3)
+    ctx.rule("GREY-DEPTH", "Gray: increasing thresholds, codes 30/90/37/97 of increasing reference luminance, +10 background, nothing for underline", floor=6)
+    ctx.rule("TRUECOLOR", "TrueColor: <role prefix>;2;r;g;b with r,g,b the to_rgb() channels in order, one chunk each, plain decimal", floor=5)
+
+    if h.fn is None:
+        for r in ("INDEX-LAYOUT", "GREY-VS-CUBE", "GREY-DEPTH", "TRUECOLOR"):
+            ctx.anchor(r, "color_sgr_encode")
+    if h.nearest is None:
+        ctx.anchor("NEAREST", "encoder::nearest")
+    fsite = ["%s:%d" % (ENC, h.fn[1]["line"])] if h.fn else [ENC]
+
+    # ---------------- discovery: which tables does the EightBit arm search, with which probes --------------------------------
+    PROBES = [(0.11, 0.52, 0.83), (0.71, 0.23, 0.05)]
+    n_cube, n_grey = len(ref["cube_levels"]["values"]), len(ref["grey_levels"]["values"])
+
+    def role_of(v, rgb):
+        r, g, b = rgb
+        for name, x in (("r", r), ("g", g), ("b", b)):
+            if v == x:
+                return name
+        if _near(v, (r + g + b) / 3.0):
+            return "mean"
+        return None
+
+    searched = {}           # "cube"/"grey" -> table values the arm hands to nearest
+    eight_ok = h.fn is not None and h.nearest is not None
+    if eight_ok:
+        h.on_nearest = lambda v, table: 0
+        h.on_distance = lambda recv, arg: 1.0
+        try:
+            rgb = PROBES[0]
+            h.run("EightBit", "Foreground", ColorV(lin=LinV(rgb + (1.0,))))
+            for ev in h.log:
+                if ev[0] == "nearest":
+                    ro = role_of(ev[1], rgb)
+                    if ro in ("r", "g", "b"):
+                        searched.setdefault("cube", ev[2])
+                    elif ro == "mean":
+                        searched.setdefault("grey", ev[2])
+        except (Unsupported, Abort) as ex:
+            ctx.note("EightBit discovery run: %s" % ex)
+        finally:
+            h.on_nearest = h.on_distance = None
+
+    # ---------------- (a) tables -----------------------------------------------------------------------------
     enc_tables = {}
-    for name, refkey in (("CUBE", "cube_levels"), ("GREYS", "grey_levels")):
+    for name, refkey, key in (("CUBE", "cube_levels", "cube"), ("GREYS", "grey_levels", "grey")):
         levels = ref[refkey]["values"]
         c = src.const(name, file=ENC)
         lits = array_lits(c[1]["expr"]) if c else None
-        if lits is None or any(l["t"] not in ("float", "int") for l in lits):
+        if lits is not None and any(l["t"] not in ("float", "int") for l in lits):
+            lits = None
+        vals = [float(l["v"]) for l in lits] if lits is not None else None
+        if key in searched and vals != searched[key]:
+            vals, lits = searched[key], None              # the table the arm really searches (renamed / computed constant)
+        if vals is None and c is not None:
+            try:
+                v = it.const(None, name, ENC)
+                vals = [float(x) for x in v] if isinstance(v, list) and all(isinstance(x, (int, float)) and not isinstance(x, bool) for x in v) else None
+            except Unsupported:
+                vals = None
+        if vals is None:
             ctx.anchor("TABLE-LINEAR", "encoder::" + name)
             all_finite = False
         else:
-            vals = [float(l["v"]) for l in lits]
             enc_tables[name] = vals
-            site = ["%s:%d" % (ENC, c[1]["line"])]
+            site = ["%s:%d" % (ENC, c[1]["line"])] if c else fsite
             if len(vals) != len(levels):
                 ctx.violation("TABLE-LINEAR", "encoder::" + name, "length", "%s has %d entries, xterm has %d levels" % (name, len(vals), len(levels)), sites=site)
-            for i, (l, v) in enumerate(zip(lits, vals)):
+            for i, v in enumerate(vals):
                 if i >= len(levels):
                     break
                 exact = srgb_to_linear(levels[i], ref["srgb_transfer"])
-                nd = max(decimals(l), 1)
+                nd = max(decimals(lits[i]), 1) if lits is not None else 1
                 ok = nd <= 6 and abs(v - exact) <= 0.5 * 10 ** (-6) * (1 + 1e-6) and abs(round(exact, 6) - v) < 1e-9
-                ctx.instance("TABLE-LINEAR", {"table": name, "i": i, "level": levels[i], "literal": l["v"], "srgb_to_linear": round(exact, 9)})
+                ctx.instance("TABLE-LINEAR", {"table": name, "i": i, "level": levels[i], "literal": lits[i]["v"] if lits is not None else v, "srgb_to_linear": round(exact, 9)})
                 if not ok:
                     ctx.violation("TABLE-LINEAR", "encoder::" + name, "entry-%d" % i,
-                                  "%s[%d] = %s but sRGB->linear(%d/255) = %.7f (xterm level %d)" % (name, i, l["v"], levels[i], exact, levels[i]), sites=site)
+                                  "%s[%d] = %s but sRGB->linear(%d/255) = %.7f (xterm level %d)" % (name, i, lits[i]["v"] if lits is not None else v, levels[i], exact, levels[i]), sites=site)
             inc = all(a < b for a, b in zip(vals, vals[1:]))
             ctx.instance("TABLE-LINEAR", {"table": name, "strictly_increasing": inc})
             if not inc:
                 ctx.violation("TABLE-LINEAR", "encoder::" + name, "not-increasing",
                               "%s is not strictly increasing: binary_search_by in `nearest` requires a sorted table" % name, sites=site)
         d = src.const(name, file=DEC)
-        dl = array_lits(d[1]["expr"]) if d else None
-        if dl is None or any(l["t"] != "int" for l in dl):
+        dv = None
+        if d is not None:
+            dl = array_lits(d[1]["expr"])
+            if dl is not None and all(l["t"] == "int" for l in dl):
+                dv = [int(l["v"]) for l in dl]
+            else:
+                try:
+                    v = it.const(None, name, DEC)
+                    dv = list(v) if isinstance(v, list) and all(isinstance(x, int) and not isinstance(x, bool) for x in v) else None
+                except Unsupported:
+                    dv = None
+        if dv is None:
             ctx.anchor("TABLE-DECODER", "decoder::" + name)
             all_finite = False
         else:
-            dv = [int(l["v"]) for l in dl]
             site = ["%s:%d" % (DEC, d[1]["line"])]
             if len(dv) != len(levels):
                 ctx.violation("TABLE-DECODER", "decoder::" + name, "length", "%s has %d entries, xterm has %d" % (name, len(dv), len(levels)), sites=site)
@@ -299,497 +453,486 @@ def run(ctx):
                 if v != levels[i]:
                     ctx.violation("TABLE-DECODER", "decoder::" + name, "entry-%d" % i, "decoder %s[%d] = %d, xterm level is %d" % (name, i, v, levels[i]), sites=site)
 
+    # ---------------- (e) Gray: discovery of the thresholds (needed by NEAREST) ------------------------------
+    gray = {"table": None, "probe_ok": None, "calls": 0}
+    LUMA = 0.4321
+    if h.fn is not None and h.nearest is not None:
+        h.on_nearest = lambda v, table: 0
+        try:
+            h.run("Gray", "Foreground", ColorV(luma=LUMA))
+            calls = [ev for ev in h.log if ev[0] == "nearest"]
+            gray["calls"] = len(calls)
+            if len(calls) == 1:
+                gray["table"] = calls[0][2]
+                gray["probe_ok"] = calls[0][1] == LUMA and any(ev[0] == "luma" for ev in h.log)
+        except (Unsupported, Abort) as ex:
+            gray["error"] = str(ex)
+        finally:
+            h.on_nearest = None
+
     # ---------------- (c) nearest ------------------------------------------------------------------------------
-    ctx.rule("NEAREST", "`nearest`: comparator `c.partial_cmp(&v)`, Ok(i) => i, Err(i) arm = argmin |v - vs[j]| for every table and insertion point", floor=38)
-    nf = src.fn("nearest", file=ENC)
-    grey_thresholds = None
-    item, params, arms = depth_arms(src)
-    if nf is None:
-        ctx.anchor("NEAREST", "encoder::nearest")
-        all_finite = False
-    else:
-        nitem = nf[1]
-        nsite = ["%s:%d" % (ENC, nitem["line"])]
-        pn = [i["pat"]["name"] for i in nitem["sig"]["inputs"]]
-        mv = block_value(nitem["body"])
-        scr = mv["e"] if mv is not None and mv.get("k") == "match" else None
-        shape_ok = False
-        if scr is not None and len(pn) == 2 and scr.get("k") == "mcall" and scr["m"] == "binary_search_by" and expr_text(scr["recv"]) == pn[1] \
-                and len(scr["args"]) == 1 and scr["args"][0]["k"] == "closure" and len(scr["args"][0]["params"]) == 1:
-            cl = scr["args"][0]
-            cp = pat_names(cl["params"][0])
-            b = block_value(cl["body"])
-            if b is not None and b.get("k") == "mcall" and b["m"] in ("unwrap", "expect") and b["recv"].get("k") == "mcall" \
-                    and b["recv"]["m"] == "partial_cmp" and len(cp) == 1:
-                inner = b["recv"]
-                shape_ok = expr_text(unref(inner["recv"])) == cp[0] and len(inner["args"]) == 1 and expr_text(unref(inner["args"][0])) == pn[0]
-        ctx.instance("NEAREST", {"comparator": expr_text(scr["args"][0]) if scr and scr.get("args") else None, "element_vs_probe": shape_ok})
-        if scr is None:
-            ctx.anchor("NEAREST", "match-on-binary_search_by")
-            all_finite = False
-        elif not shape_ok:
-            ctx.violation("NEAREST", "encoder::nearest", "comparator",
-                          "binary_search_by comparator is not `|c| c.partial_cmp(&%s).unwrap()` (element compared to the probe); a reversed or different "
-                          "comparator breaks the search on an increasing table" % pn[0], sites=nsite)
-        if scr is not None:
-            it = Interp(src)
-            tables = dict(enc_tables)
-            # grey thresholds literal from the Gray arm
-            if arms and "Gray" in arms:
-                for c in find_all(arms["Gray"], lambda n: n.get("k") == "call" and n["f"].get("k") == "path" and n["f"]["p"] == "nearest"):
-                    al = array_lits(c["args"][1]) if len(c["args"]) == 2 else None
-                    if al:
-                        grey_thresholds = [float(x["v"]) for x in al]
-                        tables["gray-thresholds"] = grey_thresholds
-            tables["tie-probe"] = [0.0, 1.0]
+    if h.nearest is not None:
+        nsite = ["%s:%d" % (ENC, h.nearest[1]["line"])]
+        tables = dict(enc_tables)
+        if gray["table"]:
+            tables["gray-thresholds"] = gray["table"]
+        tables["tie-probe"] = [0.0, 1.0]
+        reported = set()
+        cmp_ok = True
 
-            def run_arm(tag, k, v, vs):
-                fr = Frame({pn[0]: v, pn[1]: list(vs)}, None, ENC)
-                return it.match_value(mv, (tag, k), fr)
+        def near(v, vs):
+            return h.call_nearest(v, vs)
 
-            reported = set()
-            for tname, vs in tables.items():
-                n = len(vs)
-                if not all(a < b for a, b in zip(vs, vs[1:])):
-                    continue        # reported by TABLE-LINEAR / GREY-DEPTH; `nearest` has no meaning on an unsorted table
-                for k in range(n):
+        def report(shape, msg, detail=None):
+            if shape not in reported:
+                reported.add(shape)
+                ctx.violation("NEAREST", "encoder::nearest", shape, msg, sites=nsite, detail=detail)
+
+        for tname, vs in tables.items():
+            n = len(vs)
+            if not all(a < b for a, b in zip(vs, vs[1:])):
+                continue        # reported by TABLE-LINEAR / GREY-DEPTH; `nearest` has no meaning on an unsorted table
+            for k in range(n):
+                try:
+                    r = near(vs[k], vs)
+                except PreconditionViolated as ex:
+                    cmp_ok = False
+                    report("comparator", "the comparator handed to the binary search does not order an increasing table around the probe (element must be compared "
+                                         "to the probe: Less below it, Greater above it) - table %s, v=%s: %s" % (tname, vs[k], ex))
+                    break
+                except Unsupported as ex:
+                    r = "not evaluable (%s)" % ex
+                if r != k:
+                    report("ok-arm", "nearest(%s, %s) with the probe equal to entry %d returns %r instead of %d" % (vs[k], tname, k, r, k))
+            if not cmp_ok:
+                break
+            if tname == "tie-probe":
+                try:
+                    r = near(0.5, vs)
+                    ctx.note("nearest: a probe exactly between two entries goes to the %s neighbour (evaluated on table [0,1], v=0.5)" % ("upper" if r == 1 else "lower"))
+                    ctx.extra["nearest_ties"] = "upper" if r == 1 else "lower"
+                except Unsupported:
+                    pass
+                continue
+            for k in range(n + 1):
+                if k == 0:
+                    probes = [vs[0] - 1.0, vs[0] - 1e-6]
+                    shape = "lower-edge"
+                elif k == n:
+                    probes = [vs[-1] + 1e-6, vs[-1] + 1.0]
+                    shape = "upper-edge"
+                else:
+                    lo, hi = vs[k - 1], vs[k]
+                    probes = [lo + f * (hi - lo) for f in (0.01, 0.25, 0.49, 0.51, 0.75, 0.99)]
+                    shape = "interior"
+                bad = None
+                for v in probes:
+                    want = min(range(n), key=lambda j: abs(v - vs[j]))
                     try:
-                        r = run_arm("Ok", k, vs[k], vs)
+                        r = near(v, vs)
+                    except PreconditionViolated as ex:
+                        cmp_ok = False
+                        report("comparator", "the comparator handed to the binary search does not order an increasing table around the probe - table %s, v=%.6f: %s" % (tname, v, ex))
+                        break
                     except Unsupported as ex:
                         r = "not evaluable (%s)" % ex
-                    if r != k and "ok-arm" not in reported:
-                        reported.add("ok-arm")
-                        ctx.violation("NEAREST", "encoder::nearest", "ok-arm", "Ok(%d) on table %s returns %r instead of %d" % (k, tname, r, k), sites=nsite)
-                if tname == "tie-probe":
-                    try:
-                        r = run_arm("Err", 1, 0.5, vs)
-                        ctx.note("nearest: a probe exactly between two entries goes to the %s neighbour (read off the Err arm on table [0,1], v=0.5)" % ("upper" if r == 1 else "lower"))
-                        ctx.extra["nearest_ties"] = "upper" if r == 1 else "lower"
-                    except Unsupported:
-                        pass
-                    continue
-                for k in range(n + 1):
-                    if k == 0:
-                        probes = [vs[0] - 1.0, vs[0] - 1e-6]
-                        shape = "lower-edge"
-                    elif k == n:
-                        probes = [vs[-1] + 1e-6, vs[-1] + 1.0]
-                        shape = "upper-edge"
-                    else:
-                        lo, hi = vs[k - 1], vs[k]
-                        probes = [lo + f * (hi - lo) for f in (0.01, 0.25, 0.49, 0.51, 0.75, 0.99)]
-                        shape = "interior"
-                    bad = None
-                    for v in probes:
-                        want = min(range(n), key=lambda j: abs(v - vs[j]))
-                        try:
-                            r = run_arm("Err", k, v, vs)
-                        except Unsupported as ex:
-                            r = "not evaluable (%s)" % ex
-                        if r != want:
-                            bad = (v, r, want)
-                            break
-                    ctx.instance("NEAREST", {"table": tname, "insertion_point": k, "probes": len(probes), "ok": bad is None})
-                    if bad is not None and shape not in reported:
-                        reported.add(shape)
-                        ctx.violation("NEAREST", "encoder::nearest", shape,
-                                      "Err(%d) on table %s with v=%.6f returns %s but the closest entry is index %d (%.6f)" % (k, tname, bad[0], bad[1], bad[2], vs[bad[2]]),
-                                      sites=nsite, detail={"table": tname, "vs": vs, "v": bad[0], "got": str(bad[1]), "want": bad[2]})
-            ctx.extra["nearest_eval_steps"] = it.steps
+                    if r != want:
+                        bad = (v, r, want)
+                        break
+                if not cmp_ok:
+                    break
+                ctx.instance("NEAREST", {"table": tname, "insertion_point": k, "probes": len(probes), "ok": bad is None})
+                if bad is not None:
+                    report(shape, "nearest(%.6f, %s) (insertion point %d) returns %s but the closest entry is index %d (%.6f)" % (bad[0], tname, k, bad[1], bad[2], vs[bad[2]]),
+                           detail={"table": tname, "vs": vs, "v": bad[0], "got": str(bad[1]), "want": bad[2]})
+            if not cmp_ok:
+                break
+        ctx.instance("NEAREST", {"comparator_orders_every_table_around_every_probe": cmp_ok})
+        ctx.extra["nearest_eval_steps"] = it.steps
 
-    # ---------------- arms of color_sgr_encode ---------------------------------------------------------------
-    ctx.rule("INDEX-LAYOUT", "EightBit: index = 16+36r+6g+b / 232+i over nearest() indices bound to the matching channels, in range; decoder inverse layout", floor=7)
-    ctx.rule("GREY-VS-CUBE", "EightBit: the choice compares color.distance(grey candidate) with color.distance(cube candidate) built from the same indices", floor=4)
-    ctx.rule("GREY-DEPTH", "Gray: increasing thresholds, codes 30/90/37/97 of increasing reference luminance, +10 background, nothing for underline", floor=7)
-    ctx.rule("TRUECOLOR", "TrueColor: <role prefix>;2;r;g;b with r,g,b the to_rgb() channels in order, one chunk each, plain {}", floor=5)
-    if not arms or not all(a in arms for a in ("TrueColor", "EightBit", "Gray")):
-        for r in ("INDEX-LAYOUT", "GREY-VS-CUBE", "GREY-DEPTH", "TRUECOLOR"):
-            ctx.anchor(r, "color_sgr_encode-depth-arms")
+    if h.fn is None or h.nearest is None:
         ctx.exhaustive = False
         return
-    fsite = ["%s:%d" % (ENC, item["line"])]
-    color_param = params[1]
-    roles = ref["sgr_colour_params"]["role_prefix"]
 
-    # ----- (b) + (d) EightBit
-    eb = arms["EightBit"]
-    items = emissions(eb)
-    lets = Lets(params)
-    cube_idx = {}       # versioned var -> channel position
-    grey_idx = {}       # versioned var -> mean-ok bool
-    chan = {}           # versioned channel var -> position
-    lin_name = None
-    cands = {}          # versioned var -> ("cube", [idx vars]) / ("grey", idxvar)
-    index_if = None
-    tail = []
-    for it_ in items:
-        kind = it_[0]
-        if kind == "let":
-            pat, init = it_[1], it_[2]
-            rinit = lets.r(init)
-            u = unref(rinit)
-            is_index_if = u.get("k") == "if" and index_if is None
-            lets.bind(pat, init)
-            if pat["k"] == "slice" and u.get("k") == "mcall" and u["m"] == "into":
-                srcv = unref(u["recv"])
-                d = lets.defs.get(srcv.get("p")) if srcv.get("k") == "path" else None
-                if d is not None and d[0] is not None and unref(d[0]).get("k") == "call" and unref(d[0])["f"].get("p") == "LinColor::from" \
-                        and expr_text(unref(d[0])["args"][0]) == color_param + "#0":
-                    lin_name = srcv["p"]
-                    for i, x in enumerate(pat["elems"][:3]):
-                        if x["k"] == "ident":
-                            chan[lets.cur(x["name"])] = i
-            elif pat["k"] == "ident" and u.get("k") == "call" and u["f"].get("p") == "nearest" and len(u["args"]) == 2:
-                tbl = expr_text(unref(u["args"][1]))
-                a0 = unref(u["args"][0])
-                if tbl == "CUBE" and a0.get("k") == "path" and a0["p"] in chan:
-                    cube_idx[lets.cur(pat["name"])] = chan[a0["p"]]
-                elif tbl == "GREYS":
-                    ok = False
-                    if a0.get("k") == "bin" and a0["op"] == "/" and unref(a0["r"]).get("k") == "lit" and float(unref(a0["r"])["v"]) == 3.0:
-                        cnt = {}
+    # ---------------- (b) + (d) EightBit ---------------------------------------------------------------------
+    cube_t, grey_t = searched.get("cube"), searched.get("grey")
+    once = set()
 
-                        def add(e):
-                            e = unref(e)
-                            if e.get("k") == "bin" and e["op"] == "+":
-                                return add(e["l"]) and add(e["r"])
-                            if e.get("k") == "path":
-                                cnt[e["p"]] = cnt.get(e["p"], 0) + 1
-                                return True
-                            return False
-                        ok = add(a0["l"]) and len(chan) == 3 and cnt == {c: 1 for c in chan}
-                    grey_idx[lets.cur(pat["name"])] = ok
-            elif pat["k"] == "ident" and u.get("k") == "call" and u["f"].get("p") == "LinColor::new" and len(u["args"]) == 4:
-                comps = []
-                for a in u["args"][:3]:
-                    a = unref(a)
-                    if a.get("k") == "index":
-                        comps.append((expr_text(unref(a["e"])), expr_text(unref(a["i"]))))
-                    else:
-                        comps.append((None, expr_text(a)))
-                alpha = unref(u["args"][3])
-                a_ok = alpha.get("k") == "lit" and float(alpha["v"]) == 1.0
-                if all(t == "CUBE" for t, _ in comps):
-                    cands[lets.cur(pat["name"])] = ("cube", [i for _, i in comps], a_ok)
-                elif all(t == "GREYS" for t, _ in comps):
-                    cands[lets.cur(pat["name"])] = ("grey", [i for _, i in comps], a_ok)
-                else:
-                    cands[lets.cur(pat["name"])] = ("mixed", comps, a_ok)
-            elif is_index_if and pat["k"] == "ident":
-                index_if = (lets.cur(pat["name"]), u)
-        else:
-            tail.append(it_)
+    def viol(rule, shape, msg, where=FN, sites=fsite):
+        if (rule, shape) not in once:
+            once.add((rule, shape))
+            ctx.violation(rule, where, shape, msg, sites=sites)
 
-    ok_chan = lin_name is not None and sorted(chan.values()) == [0, 1, 2]
-    ctx.instance("INDEX-LAYOUT", {"channels": chan, "linear_colour": lin_name, "from": "LinColor::from(%s)" % color_param, "ok": ok_chan})
-    if not ok_chan:
-        ctx.anchor("INDEX-LAYOUT", "EightBit-channel-destructure", "cannot find `let [r, g, b, _] = <LinColor::from(%s)>.into()` in the EightBit arm" % color_param)
-    by_pos = {pos: v for v, pos in cube_idx.items()}
-    ok_cube = sorted(cube_idx.values()) == [0, 1, 2] and len(cube_idx) == 3
-    ctx.instance("INDEX-LAYOUT", {"cube_indices": cube_idx, "grey_index": grey_idx})
-    if not ok_cube:
-        ctx.violation("INDEX-LAYOUT", FN, "cube-index-channels",
-                      "the three nearest(.., CUBE) indices are not taken from the red, green and blue channel once each: %s" % cube_idx, sites=fsite)
-    if len(grey_idx) != 1 or not list(grey_idx.values())[0]:
-        ctx.violation("INDEX-LAYOUT", FN, "grey-index-mean",
-                      "the grey index is not nearest((r + g + b) / 3.0, GREYS) over the three channels", sites=fsite)
-    gvar = list(grey_idx)[0] if len(grey_idx) == 1 else None
+    def eight(rgb, plan, dist, role="Foreground"):
+        """evaluate the arm with nearest() returning plan[channel] and distance() returning dist[candidate kind]
+        -> dict(index=int|None, chunks, tail, ret, calls=[nearest roles], problems=[(rule, shape, msg)])"""
+        req = LinV(rgb + (1.0,))
+        problems = []
+        roles_seen = []
 
-    if index_if is None:
-        ctx.anchor("INDEX-LAYOUT", "EightBit-index-if")
-        ctx.anchor("GREY-VS-CUBE", "EightBit-index-if")
+        def on_nearest(v, table):
+            ro = role_of(v, rgb)
+            if ro in ("r", "g", "b"):
+                if table != cube_t:
+                    problems.append(("INDEX-LAYOUT", "cube-index-channels", "channel %s is searched in another table than the other channels: %s" % (ro, table)))
+                roles_seen.append(ro)
+                return plan[ro]
+            if ro == "mean":
+                if table != grey_t:
+                    problems.append(("INDEX-LAYOUT", "grey-index-mean", "the channel mean is searched in two different tables"))
+                roles_seen.append(ro)
+                return plan["mean"]
+            if table == cube_t:
+                raise Abort("INDEX-LAYOUT", "cube-index-channels", "nearest(%.6g, <cube table>) is called with a probe that is none of the channels r=%g g=%g b=%g" % ((v,) + rgb))
+            if table == grey_t:
+                raise Abort("INDEX-LAYOUT", "grey-index-mean", "nearest(%.6g, <grey table>) is called with a probe that is not the channel mean (r+g+b)/3 = %.6g of r=%g g=%g b=%g" % (
+                    (v, sum(rgb) / 3.0) + rgb))
+            raise Abort("INDEX-LAYOUT", "nearest-table", "nearest is called on a table that is neither the cube nor the grey table: %s" % (table,))
+
+        want_grey = LinV((grey_t[plan["mean"]],) * 3 + (1.0,)) if grey_t and plan["mean"] < len(grey_t) else None
+        want_cube = LinV((cube_t[plan["r"]], cube_t[plan["g"]], cube_t[plan["b"]], 1.0)) if cube_t and max(plan["r"], plan["g"], plan["b"]) < len(cube_t) else None
+        dcalls = []
+
+        def on_distance(recv, arg):
+            if recv != req:
+                problems.append(("GREY-VS-CUBE", "receiver", "a distance is measured from %r, not from the requested colour %r" % (recv, req)))
+            if arg == want_grey and want_grey != want_cube:
+                dcalls.append("grey")
+                return dist["grey"] if recv == req else 0.0
+            if arg == want_cube:
+                dcalls.append("cube")
+                return dist["cube"] if recv == req else 0.0
+            comps = arg.c[:3]
+            kind = "grey" if all(x in (grey_t or ()) for x in comps) else ("cube" if all(x in (cube_t or ()) for x in comps) else "mixed")
+            if kind == "grey" and not (comps[0] == comps[1] == comps[2]):
+                kind = "mixed"
+            problems.append(("GREY-VS-CUBE", "candidate-" + kind,
+                             "candidate colour %r is not LinColor::new of the table entries at the chosen indices in channel order with alpha 1.0 "
+                             "(indices r=%d g=%d b=%d grey=%d: expected %r or %r)" % (arg, plan["r"], plan["g"], plan["b"], plan["mean"], want_cube, want_grey)))
+            dcalls.append(kind + "?")
+            return sum((x - y) ** 2 for x, y in zip(recv.c[:3], arg.c[:3])) ** 0.5
+
+        h.on_nearest, h.on_distance = on_nearest, on_distance
+        try:
+            ret, chunks, tail = h.run("EightBit", role, ColorV(lin=req))
+        finally:
+            h.on_nearest = h.on_distance = None
+        idx = None
+        if len(chunks) == 3 and not tail and chunks[2].isdigit() and str(int(chunks[2])).encode() == chunks[2]:
+            idx = int(chunks[2])
+        return {"index": idx, "chunks": chunks, "tail": tail, "ret": ret, "calls": sorted(roles_seen), "dcalls": dcalls, "problems": problems}
+
+    enum_ok = False
+    if cube_t is None or grey_t is None:
+        ctx.instance("INDEX-LAYOUT", {"searched_tables": {k: len(v) for k, v in searched.items()}, "ok": False})
+        if cube_t is None:
+            viol("INDEX-LAYOUT", "cube-index-channels", "no nearest() call of the EightBit arm searches a table with one of the channels r, g, b of LinColor::from(colour)")
+        if grey_t is None:
+            viol("INDEX-LAYOUT", "grey-index-mean", "the grey index is not nearest((r + g + b) / 3.0, GREYS) over the three channels")
     else:
-        idx_var, ife = index_if
-        cond = unref(ife["cond"])
-        then_f = linform(block_value(ife["then"])) if block_value(ife["then"]) is not None else None
-        else_f = linform(block_value(ife.get("else"))) if block_value(ife.get("else")) is not None else None
-        want_grey = {gvar: 1, 1: lay["grey_base"]} if gvar else None
-        want_cube = {by_pos.get(0): lay["stride_red"], by_pos.get(1): lay["stride_green"], by_pos.get(2): lay["stride_blue"], 1: lay["cube_base"]} if ok_cube else None
+        tab_ok = cube_t == enc_tables.get("CUBE") and grey_t == enc_tables.get("GREYS")
+        ctx.instance("INDEX-LAYOUT", {"searched_tables": {"cube": len(cube_t), "grey": len(grey_t)}, "are_the_checked_tables": tab_ok})
+        # which probes reach nearest, on both probe colours
+        calls_ok = True
+        first = None
+        try:
+            for rgb in PROBES:
+                r = eight(rgb, {"r": 1, "g": 2, "b": 3, "mean": 4}, {"grey": 1.0, "cube": 2.0})
+                first = first or r
+                for p in r["problems"]:
+                    viol(*p)
+                cube_calls = [c for c in r["calls"] if c != "mean"]
+                if cube_calls != ["b", "g", "r"]:
+                    calls_ok = False
+                    viol("INDEX-LAYOUT", "cube-index-channels", "the three nearest(.., CUBE) indices are not taken from the red, green and blue channel once each: probes %s" % cube_calls)
+                if r["calls"].count("mean") != 1:
+                    calls_ok = False
+                    viol("INDEX-LAYOUT", "grey-index-mean", "the grey index is not nearest((r + g + b) / 3.0, GREYS) over the three channels")
+            ctx.instance("INDEX-LAYOUT", {"nearest_probes": first["calls"] if first else None, "ok": calls_ok})
+            ctx.instance("GREY-VS-CUBE", {"distance_calls": first["dcalls"] if first else None, "receiver_and_candidates_checked_by_value": True})
+        except Abort as ex:
+            calls_ok = False
+            viol(ex.rule, ex.shape, ex.msg)
+        except Unsupported as ex:
+            calls_ok = False
+            ctx.anchor("INDEX-LAYOUT", "EightBit-arm-eval", "the EightBit arm is not evaluable: %s" % ex)
 
-        def classify(f):
-            if f is None:
-                return None
-            if want_grey is not None and f == want_grey:
-                return "grey"
-            if want_cube is not None and f == want_cube:
-                return "cube"
-            return "other"
-        tk, ek = classify(then_f), classify(else_f)
-        # which side of the comparison is which candidate
-        sides = []
-        recvs = []
-        if cond.get("k") == "bin" and cond["op"] in ("<", "<=", ">", ">="):
-            for side in (cond["l"], cond["r"]):
-                s = unref(side)
-                if s.get("k") == "mcall" and s["m"] == "distance" and len(s["args"]) == 1:
-                    recvs.append(expr_text(unref(s["recv"])))
-                    a = unref(s["args"][0])
-                    c = cands.get(a.get("p")) if a.get("k") == "path" else None
-                    if c is None and a.get("k") == "call" and a["f"].get("p") == "LinColor::new":
-                        c = ("inline", [], False)
-                    sides.append(c)
-                else:
-                    sides.append(None)
-                    recvs.append(None)
-        ctx.instance("GREY-VS-CUBE", {"cond": expr_text(cond), "sides": [s[0] if s else None for s in sides], "receivers": recvs})
-        cond_ok = len(sides) == 2 and all(s is not None for s in sides) and {sides[0][0], sides[1][0]} == {"grey", "cube"}
-        if not cond_ok:
-            ctx.violation("GREY-VS-CUBE", FN, "condition",
-                          "the cube/grey decision `%s` does not compare distance(grey candidate) with distance(cube candidate)" % expr_text(cond), sites=fsite)
-        recv_ok = len(recvs) == 2 and recvs[0] == recvs[1] == lin_name and lin_name is not None
-        ctx.instance("GREY-VS-CUBE", {"receiver_is_requested_colour": recv_ok})
-        if not recv_ok:
-            ctx.violation("GREY-VS-CUBE", FN, "receiver", "both distances must be measured from the requested colour (%s); receivers are %s" % (lin_name, recvs), sites=fsite)
-        # candidates built from the same indices
-        for cv, (ckind, idxs, a_ok) in sorted(cands.items()):
-            if ckind == "cube":
-                good = ok_cube and idxs == [by_pos[0], by_pos[1], by_pos[2]] and a_ok
-            elif ckind == "grey":
-                good = gvar is not None and idxs == [gvar] * 3 and a_ok
-            else:
-                good = False
-            ctx.instance("GREY-VS-CUBE", {"candidate": cv, "kind": ckind, "indices": idxs, "ok": good})
-            if not good:
-                ctx.violation("GREY-VS-CUBE", FN, "candidate-" + ckind,
-                              "candidate colour %s is not LinColor::new of the table entries at the chosen indices in channel order with alpha 1.0: %s" % (cv.split("#")[0], idxs), sites=fsite)
-        if cond_ok:
-            left_kind = sides[0][0]
-            smaller_left = cond["op"] in ("<", "<=")
-            then_should = left_kind if smaller_left else sides[1][0]
-            else_should = "cube" if then_should == "grey" else "grey"
-            ctx.extra["grey_cube_ties"] = "ties go to the %s" % (else_should if cond["op"] in ("<", ">") else then_should)
-            ctx.instance("INDEX-LAYOUT", {"then": then_f and {str(k): v for k, v in then_f.items()}, "else": else_f and {str(k): v for k, v in else_f.items()}, "then_is": tk, "else_is": ek})
-            if tk == "other" or tk is None or ek == "other" or ek is None:
-                which = "grey" if (then_should == "grey") == (tk in ("other", None)) else "cube"
-                ctx.violation("INDEX-LAYOUT", FN, "index-" + which,
-                              "palette index expression is not the xterm layout (%d + %d*r + %d*g + b / %d + i over the nearest() indices): then=%s else=%s"
-                              % (lay["cube_base"], lay["stride_red"], lay["stride_green"], lay["grey_base"], expr_text(block_value(ife["then"])), expr_text(block_value(ife.get("else")))), sites=fsite)
-            elif (tk, ek) != (then_should, else_should):
-                ctx.violation("GREY-VS-CUBE", FN, "branches-swapped",
-                              "when %s is closer the %s index is emitted" % (then_should, tk), sites=fsite)
-            # ranges
-            n_c, n_g = len(ref["cube_levels"]["values"]), len(ref["grey_levels"]["values"])
-            enc_nc, enc_ng = len(enc_tables.get("CUBE", [])), len(enc_tables.get("GREYS", []))
-            for f, kind, nidx, lo, hi in ((then_f if tk == "cube" else else_f, "cube", enc_nc, lay["cube_base"], lay["grey_base"] - 1),
-                                          (then_f if tk == "grey" else else_f, "grey", enc_ng, lay["grey_base"], lay["palette_size"] - 1)):
-                if f is None or classify(f) != kind or nidx == 0:
-                    continue
-                mx = f.get(1, 0) + sum(v * (nidx - 1) for k2, v in f.items() if k2 != 1)
-                mn = f.get(1, 0)
+        # exhaustive enumeration over the indices nearest can return x outcome of the comparison
+        if calls_ok:
+            G0, C0 = lay["grey_base"], lay["cube_base"]
+            sr, sg, sb = lay["stride_red"], lay["stride_green"], lay["stride_blue"]
+            nc, ng = min(len(cube_t), n_cube), min(len(grey_t), n_grey)
+            stats = {"runs": 0, "min_cube": None, "max_cube": None, "min_grey": None, "max_grey": None}
+            ties = set()
+            try:
+                for ri in range(nc):
+                    for gi in range(nc):
+                        for bi in range(nc):
+                            for yi in range(ng):
+                                plan = {"r": ri, "g": gi, "b": bi, "mean": yi}
+                                G, C = G0 + yi, C0 + sr * ri + sg * gi + sb * bi
+                                res = {}
+                                for oc, dist in (("grey", {"grey": 1.0, "cube": 2.0}), ("cube", {"grey": 2.0, "cube": 1.0})):
+                                    if want_same(cube_t, grey_t, plan):
+                                        continue
+                                    r = eight(PROBES[0], plan, dist)
+                                    stats["runs"] += 1
+                                    for p in r["problems"]:
+                                        viol(*p)
+                                    if set(r["dcalls"]) != {"grey", "cube"} and not r["problems"]:
+                                        viol("GREY-VS-CUBE", "condition", "the cube/grey decision does not compare distance(grey candidate) with distance(cube candidate): "
+                                                                          "distance is called on %s" % (r["dcalls"] or "nothing"))
+                                    want_chunks = [str(roles["Foreground"]).encode(), str(sp["selector_indexed"]).encode()]
+                                    if r["index"] is None or r["chunks"][:2] != want_chunks or r["ret"] != ("Ok", ()):
+                                        viol("INDEX-LAYOUT", "eightbit-template", "EightBit arm does not emit <38|48|58>;5;<index> with the computed index as its own chunk: "
+                                                                                  "it writes `%s` and returns %r" % (_show(r["chunks"], r["tail"]), r["ret"]))
+                                    res[oc] = r["index"]
+                                if not res:
+                                    continue
+                                og, oc_ = res.get("grey"), res.get("cube")
+                                if (og, oc_) == (G, C):
+                                    for k, v in (("cube", C), ("grey", G)):
+                                        stats["min_" + k] = v if stats["min_" + k] is None else min(stats["min_" + k], v)
+                                        stats["max_" + k] = v if stats["max_" + k] is None else max(stats["max_" + k], v)
+                                    if yi == 0 and ri == gi == bi:
+                                        t = eight(PROBES[0], plan, {"grey": 1.0, "cube": 1.0})
+                                        ties.add("grey" if t["index"] == G else ("cube" if t["index"] == C else "?"))
+                                    continue
+                                if og is None or oc_ is None:
+                                    continue        # template problem, reported above
+                                ctxt = "indices r=%d g=%d b=%d grey=%d" % (ri, gi, bi, yi)
+                                if (og, oc_) == (C, G):
+                                    viol("GREY-VS-CUBE", "branches-swapped", "when the grey candidate is closer the cube index is emitted and vice versa (%s: %d / %d)" % (ctxt, og, oc_))
+                                elif og == oc_ and og in (G, C):
+                                    viol("GREY-VS-CUBE", "condition", "the cube/grey decision does not follow the comparison of distance(grey candidate) with distance(cube candidate): "
+                                                                      "%s emits %d (%s entry) whichever is closer" % (ctxt, og, "grey" if og == G else "cube"))
+                                else:
+                                    if og != G and og != C:
+                                        viol("INDEX-LAYOUT", "index-grey", "palette index is not the xterm layout %d + i: %s with the grey candidate closer emits %d, expected %d" % (G0, ctxt, og, G))
+                                    if oc_ != C and oc_ != G:
+                                        viol("INDEX-LAYOUT", "index-cube", "palette index is not the xterm layout %d + %d*r + %d*g + b: %s with the cube candidate closer emits %d, expected %d" % (
+                                            C0, sr, sg, ctxt, oc_, C))
+                                    if (og == G) != (oc_ == C) and og in (G, C) and oc_ in (G, C):
+                                        viol("GREY-VS-CUBE", "condition", "the cube/grey decision does not follow the comparison for %s: emits %d / %d" % (ctxt, og, oc_))
+                enum_ok = True
+            except Abort as ex:
+                viol(ex.rule, ex.shape, ex.msg)
+            except Unsupported as ex:
+                ctx.anchor("INDEX-LAYOUT", "EightBit-arm-eval", "the EightBit arm is not evaluable for every index combination: %s" % ex)
+            ctx.instance("INDEX-LAYOUT", {"index_combinations_x_outcomes_evaluated": stats["runs"], "complete": enum_ok})
+            ctx.instance("GREY-VS-CUBE", {"outcomes_follow_the_comparison_for_every_combination": enum_ok and not any(s in ("condition", "branches-swapped") for (r_, s) in once)})
+            if ties:
+                ctx.extra["grey_cube_ties"] = "ties go to the %s" % "/".join(sorted(ties))
+                ctx.instance("GREY-VS-CUBE", {"equal_distances_select": sorted(ties)})
+            for kind, lo, hi in (("cube", lay["cube_base"], lay["grey_base"] - 1), ("grey", lay["grey_base"], lay["palette_size"] - 1)):
+                mn, mx = stats["min_" + kind], stats["max_" + kind]
                 ctx.instance("INDEX-LAYOUT", {"range": kind, "min": mn, "max": mx, "allowed": [lo, hi]})
-                if mn != lo or mx != hi:
-                    ctx.violation("INDEX-LAYOUT", FN, "range-" + kind, "%s indices span %d..%d, xterm %s entries are %d..%d" % (kind, mn, mx, kind, lo, hi), sites=fsite)
-        # template tail: prefix match, push "5", write index, mark
-        seq = []
-        pref = {}
-        hole = None
-        for t in tail:
-            if t[0] == "match" and expr_text(t[1]) == "sgr_color_type":
-                pref = role_prefix_table(t)
-                seq.append("prefix")
-            elif t[0] == "push":
-                seq.append(("lit", t[1]))
-            elif t[0] == "write":
-                seq.append("hole")
-                hole = (t[1], [expr_text(lets.r(a)) for a in t[2]])
-            elif t[0] == "mark":
-                seq.append("mark")
-            else:
-                seq.append(t[0])
-        want_seq = ["prefix", ("lit", str(ref["sgr_colour_params"]["selector_indexed"]).encode()), "hole", "mark"]
-        pref_ok = all(pref.get(r) == str(c).encode() for r, c in roles.items()) and len(pref) == len(roles)
-        tmpl_ok = seq == want_seq and hole is not None and hole[0] == "{}" and hole[1] == [idx_var] and pref_ok
-        ctx.instance("INDEX-LAYOUT", {"template": [s if isinstance(s, str) else s[1].decode() for s in seq], "hole": hole, "prefix": {k: (v.decode() if v else None) for k, v in pref.items()}})
-        if not tmpl_ok:
-            ctx.violation("INDEX-LAYOUT", FN, "eightbit-template", "EightBit arm does not emit <38|48|58>;5;<index> with the computed index as its own chunk: %s hole=%s" % (seq, hole), sites=fsite)
+                if mn is not None and (mn != lo or mx != hi) and len(cube_t) == n_cube and len(grey_t) == n_grey:
+                    viol("INDEX-LAYOUT", "range-" + kind, "%s indices span %d..%d, xterm %s entries are %d..%d" % (kind, mn, mx, kind, lo, hi))
+            # the template for every role
+            for role in ROLES:
+                try:
+                    r = eight(PROBES[1], {"r": 5, "g": 0, "b": 3, "mean": 7}, {"grey": 2.0, "cube": 1.0}, role=role)
+                except (Abort, Unsupported) as ex:
+                    ctx.anchor("INDEX-LAYOUT", "EightBit-arm-eval", "the EightBit arm is not evaluable for %s: %s" % (role, ex))
+                    continue
+                want = [str(roles[role]).encode(), str(sp["selector_indexed"]).encode(), str(lay["cube_base"] + 5 * lay["stride_red"] + 3).encode()]
+                ok = r["chunks"] == want and not r["tail"] and r["ret"] == ("Ok", ())
+                ctx.instance("INDEX-LAYOUT", {"role": role, "emits": _show(r["chunks"], r["tail"]), "expected": _show(want), "ok": ok})
+                if not ok:
+                    viol("INDEX-LAYOUT", "eightbit-template", "EightBit arm does not emit <38|48|58>;5;<index> with the computed index as its own chunk: %s colour writes `%s`, expected `%s`" % (
+                        role, _show(r["chunks"], r["tail"]), _show(want)))
 
-    # decoder inverse layout
+    # end to end on concrete colours (repository's nearest, Euclidean distance): guards against value-dependent special cases
+    # that the index enumeration cannot see; colours whose two best palette entries are closer than the margin are skipped
+    pal = []
+    lv, gl = ref["cube_levels"]["values"], ref["grey_levels"]["values"]
+    tr = ref["srgb_transfer"]
+    for i_ in range(lay["cube_side"] ** 3):
+        pal.append((lay["cube_base"] + i_, tuple(srgb_to_linear(lv[j], tr) for j in (i_ // lay["stride_red"], (i_ // lay["stride_green"]) % lay["cube_side"], i_ % lay["cube_side"]))))
+    for i_, g_ in enumerate(gl):
+        pal.append((lay["grey_base"] + i_, (srgb_to_linear(g_, tr),) * 3))
+    lin_of = [srgb_to_linear(x, tr) for x in range(256)]
+    sample = [(x, x, x) for x in range(256)] + [(a, b_, c_) for a in lv for b_ in lv for c_ in lv] + \
+             [(a, b_, c_) for a in range(0, 256, 17) for b_ in range(0, 256, 17) for c_ in range(0, 256, 17)] + \
+             [(x, min(255, x + d_), max(0, x - d_)) for x in range(0, 256, 5) for d_ in (1, 3, 9)]
+    e2e = {"evaluated": 0, "skipped_near_tie": 0}
+    e2e_bad = None
+    try:
+        for rgb8 in sample:
+            lin = tuple(lin_of[x] for x in rgb8)
+            ds = sorted((sum((x - y) ** 2 for x, y in zip(lin, pc)) ** 0.5, pi) for pi, pc in pal)
+            if ds[1][0] - ds[0][0] < 1e-4:
+                e2e["skipped_near_tie"] += 1
+                continue
+            ret, chunks, tail = h.run("EightBit", "Foreground", ColorV(rgb=rgb8, lin=LinV(lin + (1.0,))))
+            e2e["evaluated"] += 1
+            if ret != ("Ok", ()) or tail or len(chunks) != 3 or chunks[2] != str(ds[0][1]).encode():
+                e2e_bad = (rgb8, _show(chunks, tail), ds[0][1], ds[1][1])
+                break
+    except (Unsupported, Abort) as ex:
+        e2e_bad = ("-", "not evaluable: %s" % ex, "-", "-")
+    ctx.extra["end_to_end"] = dict(e2e)
+    ctx.instance("INDEX-LAYOUT", dict(e2e, end_to_end="palette entry of minimal linear-RGB distance", ok=e2e_bad is None))
+    if e2e_bad is not None and not once:
+        viol("INDEX-LAYOUT", "palette-argmin", "opaque colour rgb%s is sent as `%s` but the palette entry of minimal distance is %s (runner-up %s)" % e2e_bad)
+
+    # decoder inverse layout: sgr_color evaluated for every palette index
     sc = src.fn("sgr_color", file=DEC)
     if sc is None:
         ctx.anchor("INDEX-LAYOUT", "decoder::sgr_color")
     else:
         dsite = ["%s:%d" % (DEC, sc[1]["line"])]
-        ifs = [n for n in find_all(sc[1]["body"], lambda n: n.get("k") == "if" and n["cond"].get("k") == "bin" and n["cond"]["op"] == "<" and lit_int(n["cond"]["r"]) is not None)]
-        th = [lit_int(n["cond"]["r"]) for n in ifs]
-        want_th = [lay["system_count"], lay["grey_base"], lay["palette_size"]]
-        ok_th = th == want_th
-        consts = {}
-        if ok_th:
-            cube_blk = ifs[1]["then"]
-            consts["cube"] = [lit_int(n) for n in find_all(cube_blk, lambda n: n.get("k") == "lit" and n["t"] == "int")]
-            grey_blk = ifs[2]["then"]
-            consts["grey"] = [lit_int(n) for n in find_all(grey_blk, lambda n: n.get("k") == "lit" and n["t"] == "int")]
-            # evaluate the cube branch denotationally for every index 16..231 and the grey branch for 232..255
-            it2 = Interp(src)
-            it2.extern_fns["RGBA::new"] = lambda args: ("RGBA",) + tuple(args)
-            bad = None
-            body_if = ifs[0]
-            for idx in range(0, lay["palette_size"]):
-                try:
-                    r = it2.eval(body_if, Frame({"index": idx}, None, DEC))
-                except Unsupported as ex:
-                    bad = (idx, "not evaluable: %s" % ex)
-                    break
-                if idx < lay["system_count"]:
-                    continue
-                if idx < lay["grey_base"]:
-                    j = idx - lay["cube_base"]
-                    lv = ref["cube_levels"]["values"]
-                    want = ("Some", ("RGBA", lv[j // 36], lv[(j // 6) % 6], lv[j % 6], 255))
-                else:
-                    g = ref["grey_levels"]["values"][idx - lay["grey_base"]]
-                    want = ("Some", ("RGBA", g, g, g, 255))
-                if r != want:
-                    bad = (idx, "%r, expected %r" % (r, want))
-                    break
-            ctx.instance("INDEX-LAYOUT", {"decoder_thresholds": th, "palette_entries_evaluated": lay["palette_size"] - lay["system_count"], "ok": bad is None})
-            if bad is not None:
-                ctx.violation("INDEX-LAYOUT", "decoder::sgr_color", "inverse-layout", "palette index %d decodes to %s" % bad, sites=dsite)
-        else:
-            ctx.instance("INDEX-LAYOUT", {"decoder_thresholds": th})
-            ctx.violation("INDEX-LAYOUT", "decoder::sgr_color", "thresholds", "palette ranges are split at %s, xterm layout is %s" % (th, want_th), sites=dsite)
+        it2 = StdInterp(src)
+        it2.extern_fns["RGBA::new"] = lambda args: ("RGBA",) + tuple(args)
+        it2.extern_fns["number_decode"] = _number_model
+        bad = None
+        n_eval = 0
+        for idx in range(lay["system_count"], lay["palette_size"] + 1):
+            try:
+                r = it2.call_item(sc[1], None, [[list(str(sp["selector_indexed"]).encode()), list(str(idx).encode())]], DEC, memo=False)
+            except Unsupported as ex:
+                bad = (idx, "not evaluable: %s" % ex)
+                break
+            n_eval += 1
+            if idx < lay["grey_base"]:
+                j = idx - lay["cube_base"]
+                lv = ref["cube_levels"]["values"]
+                want = ("Some", ("RGBA", lv[j // lay["stride_red"]], lv[(j // lay["stride_green"]) % lay["cube_side"]], lv[j % lay["cube_side"]], 255))
+            elif idx < lay["palette_size"]:
+                g = ref["grey_levels"]["values"][idx - lay["grey_base"]]
+                want = ("Some", ("RGBA", g, g, g, 255))
+            else:
+                want = NONE
+            if r != want:
+                bad = (idx, "%r, expected %r" % (r, want))
+                break
+        ctx.instance("INDEX-LAYOUT", {"decoder_palette_entries_evaluated": n_eval, "ok": bad is None})
+        if bad is not None:
+            ctx.violation("INDEX-LAYOUT", "decoder::sgr_color", "inverse-layout", "`38;5;%d` decodes to %s" % bad, sites=dsite)
 
     # ----- (e) Gray
-    gitems = emissions(arms["Gray"])
-    glets = Lets(params)
-    luma_var = None
-    level_codes = None
-    th_vals = None
-    role_map = None
-    wrote_before_role = False
-    hole = None
-    gseq = []
-    level_var = None
-    out_var = None
-    for it_ in gitems:
-        if it_[0] == "let":
-            pat, init = it_[1], it_[2]
-            u = unref(glets.r(init))
-            glets.bind(pat, init)
-            if pat["k"] != "ident":
-                continue
-            cur = glets.cur(pat["name"])
-            if u.get("k") == "mcall" and u["m"] == "luma" and expr_text(unref(u["recv"])) == color_param + "#0":
-                luma_var = cur
-            elif u.get("k") == "match" and unref(u["e"]).get("k") == "call" and unref(u["e"])["f"].get("p") == "nearest":
-                c = unref(u["e"])
-                al = array_lits(c["args"][1]) if len(c["args"]) == 2 else None
-                th_vals = [float(x["v"]) for x in al] if al else None
-                probe = expr_text(unref(c["args"][0]))
-                codes = {}
-                wild = None
-                for arm in u["arms"]:
-                    bv = lit_int(block_value(arm["body"]) or {})
-                    if arm["pat"]["k"] == "lit":
-                        codes[lit_int(arm["pat"]["e"])] = bv
-                    elif arm["pat"]["k"] == "wild":
-                        wild = bv
-                    else:
-                        codes = None
-                        break
-                if codes is not None and th_vals:
-                    n = len(th_vals)
-                    level_codes = [codes.get(i) if i in codes else (wild if i >= len(codes) else None) for i in range(n)]
-                    if sorted(codes) != list(range(len(codes))) or len(codes) + (1 if wild is not None else 0) < n or len(codes) > n:
-                        level_codes = None
-                level_var = cur
-                if probe != luma_var:
-                    luma_var = None
-            elif u.get("k") == "match" and expr_text(unref(u["e"])) == params[3] + "#0":
-                role_map = {}
-                for arm in u["arms"]:
-                    role_map[pat_text(arm["pat"]).split("::")[-1]] = arm["body"]
-                out_var = cur
-                wrote_before_role = any(s in ("hole", "lit") for s in gseq)
-        elif it_[0] == "write":
-            gseq.append("hole")
-            hole = (it_[1], [expr_text(glets.r(a)) for a in it_[2]])
-        elif it_[0] == "push":
-            gseq.append("lit")
-        elif it_[0] == "mark":
-            gseq.append("mark")
-        else:
-            gseq.append(it_[0])
-
-    ctx.instance("GREY-DEPTH", {"thresholds": th_vals, "probe_is_luma_of_colour": luma_var is not None})
-    if th_vals is None or level_codes is None or role_map is None:
-        ctx.anchor("GREY-DEPTH", "Gray-arm-shape", "Gray arm is not `match nearest(luma, &[..]) {i => code}` followed by `match sgr_color_type {..}`")
+    th_vals = gray["table"]
+    ctx.instance("GREY-DEPTH", {"thresholds": th_vals, "probe_is_luma_of_colour": gray["probe_ok"]})
+    if th_vals is None:
+        ctx.anchor("GREY-DEPTH", "Gray-arm-shape", "the Gray arm does not select the level by one nearest(luma, thresholds) call (%s)" % (gray.get("error") or "%d calls" % gray["calls"]))
     else:
-        if luma_var is None:
-            ctx.violation("GREY-DEPTH", FN, "probe", "the level is not selected by nearest(%s.luma(), thresholds)" % color_param, sites=fsite)
+        if not gray["probe_ok"]:
+            viol("GREY-DEPTH", "probe", "the level is not selected by nearest(<colour>.luma(), thresholds)")
         inc = all(a < b for a, b in zip(th_vals, th_vals[1:]))
         if not inc:
-            ctx.violation("GREY-DEPTH", FN, "thresholds-not-increasing", "grey thresholds %s are not strictly increasing (binary search precondition, monotone level)" % th_vals, sites=fsite)
-        ctx.instance("GREY-DEPTH", {"levels": len(th_vals), "codes": level_codes})
+            viol("GREY-DEPTH", "thresholds-not-increasing", "grey thresholds %s are not strictly increasing (binary search precondition, monotone level)" % th_vals)
         if len(th_vals) != 4:
-            ctx.violation("GREY-DEPTH", FN, "levels", "%d grey levels, four are available (black, bright black, white, bright white)" % len(th_vals), sites=fsite)
-        sp = ref["sgr_colour_params"]
-        sys16 = ref["system16_xterm_default"]["values"]
-
-        def pal(code, normal, bright):
-            if code is None:
+            viol("GREY-DEPTH", "levels", "%d grey levels, four are available (black, bright black, white, bright white)" % len(th_vals))
+        out = {}
+        gerr = None
+        for k in range(len(th_vals)):
+            for role in ROLES:
+                h.on_nearest = lambda v, table, k=k: k
+                try:
+                    out[(k, role)] = h.run("Gray", role, ColorV(luma=LUMA))
+                except (Unsupported, Abort) as ex:
+                    gerr = "level %d, %s: %s" % (k, role, ex)
+                finally:
+                    h.on_nearest = None
+        if gerr is not None:
+            ctx.anchor("GREY-DEPTH", "Gray-arm-shape", "the Gray arm is not evaluable: %s" % gerr)
+        else:
+            def code_of(res):
+                ret, chunks, tail = res
+                if ret == ("Ok", ()) and len(chunks) == 1 and not tail and chunks[0].isdigit() and str(int(chunks[0])).encode() == chunks[0]:
+                    return int(chunks[0])
                 return None
-            if normal <= code < normal + 8:
-                return code - normal
-            if bright <= code < bright + 8:
-                return code - bright + 8
-            return None
-        pidx = [pal(c, sp["fg_normal_base"], sp["fg_bright_base"]) for c in level_codes]
-        lum = [luma709(sys16[p]) if p is not None else None for p in pidx]
-        grey_only = all(p is not None and len(set(sys16[p])) == 1 for p in pidx)
-        mono = all(l is not None for l in lum) and all(a < b for a, b in zip(lum, lum[1:]))
-        ctx.instance("GREY-DEPTH", {"palette_entries": pidx, "reference_luma": [round(l, 4) if l is not None else None for l in lum], "increasing": mono, "achromatic": grey_only})
-        if not mono or not grey_only:
-            ctx.violation("GREY-DEPTH", FN, "codes-not-monotone",
-                          "level codes %s select palette entries %s whose reference luminance %s is not strictly increasing over achromatic entries"
-                          % (level_codes, pidx, [round(l, 3) if l is not None else None for l in lum]), sites=fsite)
-        # role handling
-        lv = level_var
-        fgb = block_value(role_map.get("Foreground"))
-        fg_ok = fgb is not None and fgb.get("k") == "path" and fgb["p"] == lv
-        ctx.instance("GREY-DEPTH", {"foreground": expr_text(fgb) if fgb else None, "ok": fg_ok})
-        if not fg_ok:
-            ctx.violation("GREY-DEPTH", FN, "foreground", "foreground does not emit the level code unchanged", sites=fsite)
-        bgb = block_value(role_map.get("Background"))
-        bf = linform(bgb) if bgb is not None else None
-        off = sp["bg_normal_base"] - sp["fg_normal_base"]
-        bg_ok = bf == {lv: 1, 1: off} and off == sp["bg_bright_base"] - sp["fg_bright_base"]
-        ctx.instance("GREY-DEPTH", {"background": expr_text(bgb) if bgb else None, "offset": off, "ok": bg_ok})
-        if not bg_ok:
-            ctx.violation("GREY-DEPTH", FN, "background", "background code is not level code + %d (30-37 -> 40-47, 90-97 -> 100-107)" % off, sites=fsite)
-        ub = role_map.get("Underline")
-        ub = strip_try(ub) if ub else None
-        u_ok = ub is not None and ub.get("k") == "return" and not wrote_before_role
-        ctx.instance("GREY-DEPTH", {"underline": expr_text(ub) if ub else None, "emits_nothing": u_ok})
-        if not u_ok:
-            ctx.violation("GREY-DEPTH", FN, "underline", "underline colour must emit nothing in grey mode (return before any chunk is written)", sites=fsite)
-        t_ok = gseq == ["hole", "mark"] and hole is not None and hole[0] == "{}" and hole[1] == [out_var]
-        ctx.instance("GREY-DEPTH", {"template": gseq, "hole": hole, "ok": t_ok})
-        if not t_ok:
-            ctx.violation("GREY-DEPTH", FN, "template", "Gray arm does not write exactly the selected code as one chunk: %s %s" % (gseq, hole), sites=fsite)
+            level_codes = [code_of(out[(k, "Foreground")]) for k in range(len(th_vals))]
+            ctx.instance("GREY-DEPTH", {"levels": len(th_vals), "codes": level_codes})
+            sys16 = ref["system16_xterm_default"]["values"]
+
+            def pal(code, normal, bright):
+                if code is None:
+                    return None
+                if normal <= code < normal + 8:
+                    return code - normal
+                if bright <= code < bright + 8:
+                    return code - bright + 8
+                return None
+            t_ok = all(c is not None for c in level_codes)
+            ctx.instance("GREY-DEPTH", {"template": [_show(out[(k, "Foreground")][1], out[(k, "Foreground")][2]) for k in range(len(th_vals))], "ok": t_ok})
+            if not t_ok:
+                viol("GREY-DEPTH", "template", "Gray arm does not write exactly the selected code as one decimal chunk: %s" % [
+                    (_show(out[(k, "Foreground")][1], out[(k, "Foreground")][2]), out[(k, "Foreground")][0]) for k in range(len(th_vals))])
+            pidx = [pal(c, sp["fg_normal_base"], sp["fg_bright_base"]) for c in level_codes]
+            lum = [luma709(sys16[p]) if p is not None else None for p in pidx]
+            grey_only = all(p is not None and len(set(sys16[p])) == 1 for p in pidx)
+            mono = all(l is not None for l in lum) and all(a < b for a, b in zip(lum, lum[1:]))
+            ctx.instance("GREY-DEPTH", {"palette_entries": pidx, "reference_luma": [round(l, 4) if l is not None else None for l in lum], "increasing": mono, "achromatic": grey_only})
+            if t_ok and (not mono or not grey_only):
+                viol("GREY-DEPTH", "codes-not-monotone", "level codes %s select palette entries %s whose reference luminance %s is not strictly increasing over achromatic entries"
+                     % (level_codes, pidx, [round(l, 3) if l is not None else None for l in lum]))
+            off = sp["bg_normal_base"] - sp["fg_normal_base"]
+            bg = [code_of(out[(k, "Background")]) for k in range(len(th_vals))]
+            bg_ok = all(b is not None and c is not None and b == c + off for b, c in zip(bg, level_codes)) and off == sp["bg_bright_base"] - sp["fg_bright_base"]
+            ctx.instance("GREY-DEPTH", {"background": bg, "offset": off, "ok": bg_ok})
+            if not bg_ok:
+                viol("GREY-DEPTH", "background", "background code is not level code + %d (30-37 -> 40-47, 90-97 -> 100-107): foreground %s, background %s" % (off, level_codes, bg))
+            ul = [out[(k, "Underline")] for k in range(len(th_vals))]
+            u_ok = all(r == (("Ok", ()), [], b"") for r in ul)
+            ctx.instance("GREY-DEPTH", {"underline": [_show(r[1], r[2]) for r in ul], "emits_nothing": u_ok})
+            if not u_ok:
+                viol("GREY-DEPTH", "underline", "underline colour must emit nothing in grey mode (return Ok before any chunk is written or marked): per level (chunks, unmarked tail, result) = %s"
+                     % [(r[1], r[2], r[0]) for r in ul])
 
     # ----- (f) TrueColor
-    t = truecolor_template(src)
-    if t is None:
-        ctx.anchor("TRUECOLOR", "TrueColor-arm")
+    tprobes = [(171, 205, 239), (0, 9, 10), (255, 100, 7), (99, 101, 11), (200, 199, 1)]
+    terr = None
+    for role in ROLES:
+        code = roles[role]
+        res = []
+        try:
+            for rgb in tprobes:
+                res.append(h.run("TrueColor", role, ColorV(rgb=rgb)))
+        except (Unsupported, Abort) as ex:
+            terr = "%s: %s" % (role, ex)
+            break
+        ret, chunks, tail = res[0]
+        got = chunks[0] if chunks else None
+        ctx.instance("TRUECOLOR", {"role": role, "prefix": got.decode("latin-1") if got else None, "reference": code, "emits": _show(chunks, tail)})
+        if got != str(code).encode():
+            viol("TRUECOLOR", "prefix-" + role, "%s colour is introduced by %r, SGR uses %d" % (role, got, code))
+        for rgb, (ret, chunks, tail) in zip(tprobes, res):
+            want = [str(sp["selector_direct"]).encode()] + [str(c).encode() for c in rgb]
+            rest = chunks[1:]
+            if rest == want and not tail and ret == ("Ok", ()):
+                continue
+            dec = [str(c).encode() for c in rgb]
+            joined = b"".join(rest) + tail
+            if len(rest) == 4 and rest[0] == want[0] and sorted(rest[1:]) == sorted(dec) and not tail:
+                viol("TRUECOLOR", "channel-order", "the three components written for to_rgb() = %s are `%s`, expected red, green, blue unchanged" % (list(rgb), _show(rest[1:])))
+            elif rest[:1] == want[:1] and (joined == b"".join(want) or len(rest) != 4 or tail or any(not c.isdigit() for c in rest[1:]) or
+                                           [int(c) for c in rest[1:]] == list(rgb)):
+                viol("TRUECOLOR", "format", "components must be written in plain decimal as separate chunks: to_rgb() = %s is written as `%s`" % (list(rgb), _show(rest, tail)))
+            else:
+                viol("TRUECOLOR", "template", "true-colour form is not <prefix>;2;<r>;<g>;<b>: to_rgb() = %s is written as `%s` (returns %r)" % (list(rgb), _show(chunks, tail), ret))
+    if terr is not None:
+        ctx.anchor("TRUECOLOR", "TrueColor-arm", "the TrueColor arm is not evaluable: %s" % terr)
     else:
-        sp = ref["sgr_colour_params"]
-        for role, code in roles.items():
-            got = t["prefix"].get(role)
-            ctx.instance("TRUECOLOR", {"role": role, "prefix": got.decode() if got else None, "reference": code})
-            if got != str(code).encode():
-                ctx.violation("TRUECOLOR", FN, "prefix-" + role, "%s colour is introduced by %r, SGR uses %d" % (role, got, code), sites=fsite)
-        sel_ok = t["selector"] == str(sp["selector_direct"]).encode()
-        ctx.instance("TRUECOLOR", {"selector": t["selector"].decode() if t["selector"] else None, "sequence": t["seq"]})
-        if not sel_ok or not t["order_ok"] or t["problems"]:
-            ctx.violation("TRUECOLOR", FN, "template", "true-colour form is not <prefix>;2;<r>;<g>;<b>: sequence %s selector %r %s" % (t["seq"], t["selector"], t["problems"]), sites=fsite)
-        src_ok = t["source"] == "%s#0.to_rgb()" % color_param
-        holes_ok = t["holes"] == [0, 1, 2] and src_ok
-        ctx.instance("TRUECOLOR", {"holes": t["holes"], "source": t["source"], "formats": t["fmts"], "one_chunk_each": t["marks"]})
-        if not holes_ok:
-            ctx.violation("TRUECOLOR", FN, "channel-order",
-                          "the three components written are to_rgb() positions %s of %s, expected [0, 1, 2] of %s.to_rgb() (red, green, blue unchanged)" % (t["holes"], t["source"], color_param), sites=fsite)
-        if any(f != "{}" for f in t["fmts"]) or not t["marks"]:
-            ctx.violation("TRUECOLOR", FN, "format", "components must be written with a plain {} as separate chunks: formats %s, marks %s" % (t["fmts"], t["marks"]), sites=fsite)
+        ctx.instance("TRUECOLOR", {"selector": sp["selector_direct"], "probe_colours": [list(p) for p in tprobes], "roles": list(ROLES)})
+        ctx.instance("TRUECOLOR", {"components": "decimal, one chunk each, in to_rgb() order", "checked_on": len(tprobes) * len(ROLES)})
 
-    ctx.exhaustive = all_finite
+    ctx.extra["eval_steps"] = it.steps
+    ctx.exhaustive = all_finite and enum_ok
+
+
+def want_same(cube_t, grey_t, plan):
+    """the grey and the cube candidate would be the same colour (cannot happen with the xterm tables: kept for safety)"""
+    return (grey_t[plan["mean"]],) * 3 == (cube_t[plan["r"]], cube_t[plan["g"]], cube_t[plan["b"]])
+
+
+def _number_model(args):
+    """decoder::number_decode: decimal value of an all-digit byte string (C02/C04 own number_decode itself)"""
+    data = list(args[0])
+    if not all(isinstance(c, int) and 48 <= c <= 57 for c in data):
+        return NONE
+    v = 0
+    for c in data:
+        v = v * 10 + c - 48
+    return some(v) if v < (1 << 64) else NONE
